@@ -440,6 +440,11 @@ func cmdCheck(args []string) int {
 			for _, label := range r.cfg.Covers {
 				cw, ok := r.covers[r.cfg.Func+"|"+label]
 				if !ok {
+					if r.timedOut {
+						// the exploration was cut by its budget: a missing witness says nothing
+						fmt.Printf("INCOMPLETE %s: cover label %q not reached before the budget ran out\n", r.cfg.Func, label)
+						continue
+					}
 					fmt.Printf("VACUOUS %s: cover label %q not reached on any feasible path\n", r.cfg.Func, label)
 					broken = true
 					continue
